@@ -5,8 +5,9 @@
 //! over a deterministic ≈ 2 000-row dataset (duplicate- and NULL-heavy keys,
 //! multi-partition multi-batch MemTables) × memory limit grid × pool policy ×
 //! spill compression × max spill file size × max spill merge fan-in. Full
-//! cross product in the thorough tier, single deviations from a base point in
-//! the quick tier.
+//! cross product in the thorough tier; in the quick tier every memory limit at
+//! the base configuration plus single deviations of the other four dimensions
+//! at four base limits.
 //!
 //! Oracle per run (exactly the statement):
 //! * the run succeeds and its result equals the unlimited run's (multiset;
@@ -290,6 +291,10 @@ const KIB: usize = 1024;
 const LIMITS: [usize; 12] =
     [KIB, 4 * KIB, 16 * KIB, 32 * KIB, 64 * KIB, 128 * KIB, 256 * KIB, 512 * KIB, 1024 * KIB, 4096 * KIB, 16384 * KIB, 65536 * KIB];
 const BASE_LIMIT: usize = 64 * KIB;
+/// Quick tier: the limits at which the other four dimensions are deviated (one
+/// at a time). Chosen so that most queries of the list spill *and* finish at
+/// one of them (see the per-query `equal_after_spilling` counters in evidence).
+const QUICK_BASE_LIMITS: [usize; 4] = [1024 * KIB, 128 * KIB, 64 * KIB, 4 * KIB];
 const POOLS: [Pool; 2] = [Pool::Greedy, Pool::Fair];
 const COMPRESSIONS: [Compression; 3] = [Compression::Uncompressed, Compression::Lz4Frame, Compression::Zstd];
 const FILE_SIZES: [Option<usize>; 3] = [None, Some(1), Some(4 * KIB)];
@@ -322,21 +327,29 @@ fn cases(quick: bool) -> Vec<Case> {
     for q in queries() {
         let base = base_case(q);
         if quick {
-            // single deviations from the base point (the base point itself included once)
+            // every memory limit at the base configuration, plus single deviations of
+            // the other four dimensions at the base limits QUICK_BASE_LIMITS
             for l in limit_points() {
-                out.push(Case { limit: l, ..base.clone() });
+                let at = Case { limit: l, ..base.clone() };
+                out.push(at.clone());
+                if !l.map(|l| QUICK_BASE_LIMITS.contains(&l)).unwrap_or(false) {
+                    continue;
+                }
+                out.push(Case { pool: Pool::Fair, ..at.clone() });
+                for c in &COMPRESSIONS[1..] {
+                    out.push(Case { compression: *c, ..at.clone() });
+                }
+                for f in &FILE_SIZES[1..] {
+                    out.push(Case { max_spill_file_size: *f, ..at.clone() });
+                }
+                out.push(Case { merge_fan_in: 2, ..at.clone() });
             }
-            out.push(Case { pool: Pool::Fair, ..base.clone() });
-            for c in &COMPRESSIONS[1..] {
-                out.push(Case { compression: *c, ..base.clone() });
-            }
-            for f in &FILE_SIZES[1..] {
-                out.push(Case { max_spill_file_size: *f, ..base.clone() });
-            }
-            out.push(Case { merge_fan_in: 2, ..base.clone() });
         } else {
             for l in limit_points() {
                 for p in POOLS {
+                    if l.is_none() && p != Pool::Greedy {
+                        continue; // the pool policy is meaningless without a limit
+                    }
                     for c in COMPRESSIONS {
                         for f in FILE_SIZES {
                             for m in FAN_INS {
@@ -415,6 +428,8 @@ struct Report {
     nlj_right_emitting_with_spill: bool,
     /// Some(description) if something was still held after everything was dropped
     leak: Option<String>,
+    /// polling rounds needed until nothing was held (0 = released synchronously)
+    grace_rounds: u32,
     plan: String,
 }
 
@@ -576,7 +591,7 @@ async fn run_async(q: &Query, c: &Case) -> Result<Report, String> {
     };
     drop(rt);
     drop(tmp);
-    Ok(Report { outcome, spills, spills_by_op: by_op, nlj_right_emitting_with_spill: nlj, leak, plan: plan_text })
+    Ok(Report { outcome, spills, spills_by_op: by_op, nlj_right_emitting_with_spill: nlj, leak, grace_rounds: rounds, plan: plan_text })
 }
 
 fn watchdog() -> Duration {
@@ -733,6 +748,8 @@ struct Verdict {
     class: &'static str,
     plan: String,
     rows: usize,
+    grace_rounds: u32,
+    failure: String,
 }
 
 fn case_key(c: &Case) -> String {
@@ -751,7 +768,7 @@ fn case_key(c: &Case) -> String {
 fn judge(c: &Case) -> Result<Verdict, String> {
     let q = query_by_name(&c.query).ok_or_else(|| format!("unknown query {}", c.query))?;
     let expected = reference(q)?;
-    let mut v = Verdict { violations: vec![], spills: 0, by_op: BTreeMap::new(), class: "violation", plan: String::new(), rows: 0 };
+    let mut v = Verdict { violations: vec![], spills: 0, by_op: BTreeMap::new(), class: "violation", plan: String::new(), rows: 0, grace_rounds: 0, failure: String::new() };
     let key = case_key(c);
     match run_guarded(q, c) {
         Ran::Machinery(m) => return Err(m),
@@ -761,6 +778,10 @@ fn judge(c: &Case) -> Result<Verdict, String> {
             v.spills = rep.spills;
             v.by_op = rep.spills_by_op.clone();
             v.plan = rep.plan.clone();
+            v.grace_rounds = rep.grace_rounds;
+            if let Outcome::Failed(_, m) = &rep.outcome {
+                v.failure = m.clone();
+            }
             match &rep.outcome {
                 Outcome::Rows(rows) => {
                     v.rows = rows.len();
@@ -817,7 +838,7 @@ fn explore(ctx: &Ctx) {
             "spill_compression": ["uncompressed", "lz4_frame", "zstd"],
             "max_spill_file_size_bytes": ["default", 1, 4096],
             "max_spill_merge_fan_in": [0, 2],
-            "product": if ctx.quick() { "single deviations from {64 KiB, greedy, uncompressed, default, 0}" } else { "full cross product" },
+            "product": if ctx.quick() { "every memory limit at {greedy, uncompressed, default, 0} + single deviations of the other four dimensions at the limits {1 MiB, 128 KiB, 64 KiB, 4 KiB}" } else { "full cross product" },
             "fixed_session_config": {"batch_size": BATCH_SIZE, "sort_spill_reservation_bytes": SORT_SPILL_RESERVATION, "sort_in_place_threshold_bytes": 0},
             "watchdog_s": watchdog().as_secs(), "release_grace_s": GRACE.as_secs(),
         }),
@@ -856,6 +877,9 @@ fn explore(ctx: &Ctx) {
                 }
                 for (op, n) in &v.by_op {
                     ctx.count(&format!("spills_by_operator.{op}"), *n);
+                }
+                if v.grace_rounds > 0 {
+                    ctx.count("release_needed_polling_after_drop", 1);
                 }
                 if c.limit.is_some() && (v.spills > 0 || v.class == "resources_exhausted") {
                     ctx.nontrivial(&case_key(c));
@@ -905,13 +929,15 @@ fn debug_main(args: &[String]) -> bool {
                         shown = true;
                     }
                     println!(
-                        "  {:>10}: {:<20} rows={:<6} spills={:<4} {:?} {:.0} ms {}",
+                        "  {:>10}: {:<20} rows={:<6} spills={:<4} {:?} {:.0} ms grace_rounds={} {} {}",
                         limit_label(l),
                         v.class,
                         v.rows,
                         v.spills,
                         v.by_op,
                         t0.elapsed().as_secs_f64() * 1e3,
+                        v.grace_rounds,
+                        v.failure.chars().take(160).collect::<String>(),
                         v.violations.iter().map(|(k, w)| format!("\n      VIOLATION {k}: {w}")).collect::<String>()
                     );
                 }
@@ -929,7 +955,7 @@ fn main() {
     run_check(
         "C18",
         Level::Exploration,
-        "every (query of the fixed list, memory limit of the grid or unlimited, pool policy, spill compression, max spill file size, merge fan-in) in the tier's product (quick: single deviations from the base point; thorough: full cross product), \
+        "every (query of the fixed list, memory limit of the grid or unlimited, pool policy, spill compression, max spill file size, merge fan-in) in the tier's product (quick: every memory limit at the base configuration + single deviations of the other four dimensions at four base limits; thorough: full cross product), \
          each run on the real engine and compared with the unlimited run of the same query; non-trivial = a run under a finite limit that spilled at least once (metric spill_count) or ended in ResourcesExhausted, i.e. the limit was felt",
         explore,
         replay,
